@@ -492,6 +492,11 @@ func (x *Exec) lookup(st *State, fr *Frame, v *ssa.Lookup) {
 		if f := x.E.literalMapFact(x, base.Src.Key, mt, val, present); f != nil {
 			st.assume(f)
 		}
+		if isString(mt.Key()) {
+			if f := x.E.literalMapKeyFact(x, st, base.Src.Key, key, present); f != nil {
+				st.assume(f)
+			}
+		}
 	}
 	if v.CommaOk {
 		st.regs[v] = Val{T: v.Type(), L: append(append([]*Term{}, val.L...), present)}
